@@ -15,6 +15,24 @@ CHECKS = {
             "to the spec by TLC checking tables they produced (exhaustive on the 1-3 byte ranges, stratified on the 4-byte range)",
             "TLC/Apalache; the harness only splits integers into 16-bit limbs; 4-byte range of the implementation is stratified",
             "DESIGN.md 6 C07"),
+    "C08": ("TLA+ definition of the string codec; TLC exhaustive over short strings and the byte x parity table; bulk table "
+            "conformance of encode_string/decode_string checked by TLC",
+            "EoStrings.tla defines Invert/Encode/Decode; TLC checks the five C08 theorems on every string up to length 5 (6) over an "
+            "8-letter boundary alphabet and on the full byte x position-parity x length-parity table; the in-place Python functions "
+            "are bound by TLC checking rows (enc, dec, dec.enc, enc.dec) they produced for the same sets plus random strings",
+            "TLC; strings beyond the exhaustive bound are sampled", "DESIGN.md 6 C08"),
+    "C10": ("TLA+ functional definitions + pipeline state machine; TLC exhaustive over short strings and pipelines; recorded function "
+            "tables and pipeline traces from the real in-place functions validated by TLC",
+            "Encrypt.tla defines the four primitives and a pipeline machine (Apply/Undo); TLC checks inverse/permutation/involution/"
+            "multiset theorems on every string up to length 6 (7) over 7 letters and that every pipeline of depth <= 3 (4) is undone "
+            "exactly; the Python functions are bound by TLC validating their recorded outputs step by step",
+            "TLC; long data and large multiples are sampled", "DESIGN.md 6 C10"),
+    "C11": ("TLA+ formula with explicit truncating remainder; Apalache bound theorem on the whole documented range; TLC bulk validation of "
+            "the real hash on every challenge of the three-byte field",
+            "ServerVerify.tla states the client's arithmetic; Apalache proves 0 <= Hash < 253^4 for all challenges <= 11,092,110 (and "
+            "refutes it one above); TLC checks the real function's output for all 16,194,277 challenges (thorough) or boundary windows, "
+            "stride and residue strata (quick)",
+            "that the published formula with C-style remainder is the client's computation (property text)", "DESIGN.md 6 C11"),
 }
 
 PLANNED = {}
